@@ -34,7 +34,7 @@ func init() {
 		ID:           "C13",
 		Run:          Run,
 		MaxSteps:     300000,
-		QuickRuns:    1600,
+		QuickRuns:    5000,
 		ThoroughSecs: 600,
 		YieldFiles:   []string{"service/tcp.go", "netio/stream.go"},
 		Rule: "one run = one generated relay configuration (server protocol x client protocol incl. a chained hop through a second server of the same " +
